@@ -8,9 +8,9 @@ use yasna::Tag;
 #[cfg(feature = "pem")]
 use crate::ENCODE_CONFIG;
 use crate::{
-	dt_strip_nanos, dt_to_generalized, oid, write_distinguished_name, write_dt_utc_or_generalized,
-	write_x509_authority_key_identifier, write_x509_extension, Certificate, Error, Issuer,
-	KeyIdMethod, KeyPair, KeyUsagePurpose, SerialNumber,
+	check_time_encodable, dt_strip_nanos, dt_to_generalized, oid, write_distinguished_name,
+	write_dt_utc_or_generalized, write_x509_authority_key_identifier, write_x509_extension,
+	Certificate, Error, Issuer, KeyIdMethod, KeyPair, KeyUsagePurpose, SerialNumber,
 };
 
 /// A certificate revocation list (CRL)
@@ -193,6 +193,15 @@ impl CertificateRevocationListParams {
 		issuer: &Certificate,
 		issuer_key: &KeyPair,
 	) -> Result<CertificateRevocationList, Error> {
+		check_time_encodable(self.this_update)?;
+		check_time_encodable(self.next_update)?;
+		for revoked_cert in &self.revoked_certs {
+			check_time_encodable(revoked_cert.revocation_time)?;
+			if let Some(invalidity_date) = revoked_cert.invalidity_date {
+				check_time_encodable(invalidity_date)?;
+			}
+		}
+
 		// Both times are encoded with whole-second precision, so compare them that way:
 		// otherwise a sub-second difference yields a CRL whose nextUpdate equals thisUpdate.
 		if dt_strip_nanos(self.next_update).le(&dt_strip_nanos(self.this_update)) {
